@@ -87,61 +87,6 @@ v('C06', 'fire', M, 'z += mat_nb @ self.imu_to_antenna_b', 'z -= mat_nb @ self.i
 v('C06', 'fire', M, '        if time not in self.data.index:\n            return None\n\n        mat_nb', '        mat_nb')
 v('C06', 'fire', 'sim.py', "columns=['VX', 'VY', 'VZ'])", "columns=['VX', 'VY', 'VD'])")
 v('C06', 'silent', M, '        return z, H, self.R', '        return z, H, self.R.copy()')
-v('C06', 'silent', M, '''        z = pva[VEL_COLS] - self.data.loc[time, VEL_COLS]
-        if self.imu_to_antenna_b is not None and all(col in pva for col in RATE_COLS):
-            mat_nb = transform.mat_from_rph(pva[RPH_COLS])
-            z += mat_nb @ np.cross(pva[RATE_COLS], self.imu_to_antenna_b)''', '''        pva_ant = pva
-        if self.imu_to_antenna_b is not None:
-            pva_ant = transform.translate_trajectory(pva, self.imu_to_antenna_b)
-        z = pva_ant[VEL_COLS] - self.data.loc[time, VEL_COLS]''', 'residual through translate_trajectory (same behaviour)')
-v('C06', 'fire', M, '''        z = pva[VEL_COLS] - self.data.loc[time, VEL_COLS]
-        if self.imu_to_antenna_b is not None and all(col in pva for col in RATE_COLS):
-            mat_nb = transform.mat_from_rph(pva[RPH_COLS])
-            z += mat_nb @ np.cross(pva[RATE_COLS], self.imu_to_antenna_b)''', '''        if self.imu_to_antenna_b is not None:
-            pva = transform.translate_trajectory(pva, self.imu_to_antenna_b)
-        z = pva[VEL_COLS] - self.data.loc[time, VEL_COLS]''', 'seeded C06: lever arm counted twice in H')
-v('C09 C10', 'fire', F, '''        if isinstance(innovation, pd.DataFrame):
-            continue
-''', '', 'F5 repair reverted', every=True)
-v('C14', 'silent', I, '''            items = state.split("_")
-            if items[0] == 'bias':
-                axis = XYZ_TO_INDEX[items[1]]
-                self.bias[axis] += xi
-            elif items[0] == 'sm':
-                axis_out = XYZ_TO_INDEX[items[1][0]]
-                axis_in = XYZ_TO_INDEX[items[1][1]]''', '''            parts = state.split("_")
-            if parts[0] == 'bias':
-                axis = XYZ_TO_INDEX[parts[1]]
-                self.bias[axis] += xi
-            elif parts[0] == 'sm':
-                axis_out = XYZ_TO_INDEX[parts[1][0]]
-                axis_in = XYZ_TO_INDEX[parts[1][1]]''', 'local renamed')
-v('C18', 'silent', T, '''    other_columns = state.columns.difference(RPH_COLS)
-    interpolator = interp1d(state.index, state[other_columns].values, axis=0)
-    result[other_columns] = interpolator(times)''', '''    others = state.columns.difference(RPH_COLS)
-    lin = interp1d(state.index, state[others].values, axis=0)
-    result[others] = lin(times)''', 'locals renamed')
-v('C03', 'silent', SI, '''        a_s = v_i_spline.derivative()
-        d = a_s.c[1] - g_i[:-1]
-        e = a_s.c[0] - np.diff(g_i, axis=0) / dt''', '''        acc_spline = v_i_spline.derivative()
-        d = acc_spline.c[1] - g_i[:-1]
-        e = acc_spline.c[0] - np.diff(g_i, axis=0) / dt''', 'local renamed')
-v('C02 C13', 'fire', S, '''        if not self.with_altitude:
-            pva = pva.copy()
-            pva.VD = 0.0
-        i = len(self.trajectory) - 1
-        self.lla[i] = pva[LLA_COLS]
-        self.velocity_n[i] = pva[VEL_COLS]
-        self.mat_nb[i] = transform.mat_from_rph(pva[RPH_COLS])
-''', '''        i = len(self.trajectory) - 1
-        self.lla[i] = pva[LLA_COLS]
-        self.velocity_n[i] = pva[VEL_COLS]
-        self.mat_nb[i] = transform.mat_from_rph(pva[RPH_COLS])
-        if not self.with_altitude:
-            pva = pva.copy()
-            pva.VD = 0.0
-''', 'seeded C02: zeroing moved below the buffer writes')
-v('C05 C17', 'fire', E, '    result[:, 0, 1] = -sin[:, 2] / cos[:, 1]', '    result[:, 0, 1] = -sin[:, 2] / cos[:, 0]', 'seeded C05: cos(roll) instead of cos(pitch)')
 # ------------------------------------------------------------------ kalman C07 C08
 KA = 'kalman.py'
 v('C07', 'fire', KA, 'solve_triangular(L, e, lower=True)', 'solve_triangular(L, e, lower=False)')
@@ -262,6 +207,64 @@ v('C19', 'fire', E, '            T_2d_3d = self.TRANSFORM_2D_3D\n', '           
 v('C19', 'fire', SI, 'columns=GYRO_COLS + ACCEL_COLS))', 'columns=ACCEL_COLS + GYRO_COLS))')
 v('C19', 'fire', I, '        result = util.mv_prod(self.transform, readings)', '        self.transform += 0\n        result = util.mv_prod(self.transform, readings)')
 v('C19', 'fire', 'util.py', '    vec = np.atleast_2d(vec)\n    result = np.zeros((n, 3, 3))', '    vec = np.atleast_2d(vec)\n    vec *= 1.0\n    result = np.zeros((n, 3, 3))')
+
+
+# ------------------------------------------------------------------ later additions
+v('C06', 'silent', M, '''        z = pva[VEL_COLS] - self.data.loc[time, VEL_COLS]
+        if self.imu_to_antenna_b is not None and all(col in pva for col in RATE_COLS):
+            mat_nb = transform.mat_from_rph(pva[RPH_COLS])
+            z += mat_nb @ np.cross(pva[RATE_COLS], self.imu_to_antenna_b)''', '''        pva_ant = pva
+        if self.imu_to_antenna_b is not None:
+            pva_ant = transform.translate_trajectory(pva, self.imu_to_antenna_b)
+        z = pva_ant[VEL_COLS] - self.data.loc[time, VEL_COLS]''', 'residual through translate_trajectory (same behaviour)')
+v('C06', 'fire', M, '''        z = pva[VEL_COLS] - self.data.loc[time, VEL_COLS]
+        if self.imu_to_antenna_b is not None and all(col in pva for col in RATE_COLS):
+            mat_nb = transform.mat_from_rph(pva[RPH_COLS])
+            z += mat_nb @ np.cross(pva[RATE_COLS], self.imu_to_antenna_b)''', '''        if self.imu_to_antenna_b is not None:
+            pva = transform.translate_trajectory(pva, self.imu_to_antenna_b)
+        z = pva[VEL_COLS] - self.data.loc[time, VEL_COLS]''', 'seeded C06: lever arm counted twice in H')
+v('C09 C10', 'fire', F, '''        if isinstance(innovation, pd.DataFrame):
+            continue
+''', '', 'F5 repair reverted', every=True)
+v('C14', 'silent', I, '''            items = state.split("_")
+            if items[0] == 'bias':
+                axis = XYZ_TO_INDEX[items[1]]
+                self.bias[axis] += xi
+            elif items[0] == 'sm':
+                axis_out = XYZ_TO_INDEX[items[1][0]]
+                axis_in = XYZ_TO_INDEX[items[1][1]]''', '''            parts = state.split("_")
+            if parts[0] == 'bias':
+                axis = XYZ_TO_INDEX[parts[1]]
+                self.bias[axis] += xi
+            elif parts[0] == 'sm':
+                axis_out = XYZ_TO_INDEX[parts[1][0]]
+                axis_in = XYZ_TO_INDEX[parts[1][1]]''', 'local renamed')
+v('C18', 'silent', T, '''    other_columns = state.columns.difference(RPH_COLS)
+    interpolator = interp1d(state.index, state[other_columns].values, axis=0)
+    result[other_columns] = interpolator(times)''', '''    others = state.columns.difference(RPH_COLS)
+    lin = interp1d(state.index, state[others].values, axis=0)
+    result[others] = lin(times)''', 'locals renamed')
+v('C03', 'silent', SI, '''        a_s = v_i_spline.derivative()
+        d = a_s.c[1] - g_i[:-1]
+        e = a_s.c[0] - np.diff(g_i, axis=0) / dt''', '''        acc_spline = v_i_spline.derivative()
+        d = acc_spline.c[1] - g_i[:-1]
+        e = acc_spline.c[0] - np.diff(g_i, axis=0) / dt''', 'local renamed')
+v('C02 C13', 'fire', S, '''        if not self.with_altitude:
+            pva = pva.copy()
+            pva.VD = 0.0
+        i = len(self.trajectory) - 1
+        self.lla[i] = pva[LLA_COLS]
+        self.velocity_n[i] = pva[VEL_COLS]
+        self.mat_nb[i] = transform.mat_from_rph(pva[RPH_COLS])
+''', '''        i = len(self.trajectory) - 1
+        self.lla[i] = pva[LLA_COLS]
+        self.velocity_n[i] = pva[VEL_COLS]
+        self.mat_nb[i] = transform.mat_from_rph(pva[RPH_COLS])
+        if not self.with_altitude:
+            pva = pva.copy()
+            pva.VD = 0.0
+''', 'seeded C02: zeroing moved below the buffer writes')
+v('C05 C17', 'fire', E, '    result[:, 0, 1] = -sin[:, 2] / cos[:, 1]', '    result[:, 0, 1] = -sin[:, 2] / cos[:, 0]', 'seeded C05: cos(roll) instead of cos(pitch)')
 
 
 # ----------------------------------------------------------------------- runner
